@@ -9,6 +9,7 @@ import (
 	"encoding/binary"
 	"encoding/hex"
 	"fmt"
+	mbits "math/bits"
 	"math/rand"
 	"os"
 	"path/filepath"
@@ -326,6 +327,123 @@ func genKeysTarget(r *rand.Rand, target int, byLabels bool) (keys [][]byte, ok b
 	return keys, cur == target
 }
 
+// genKeysWideLast builds a key set whose trie has EXACTLY `total` labels and whose last node (the last
+// node of the deepest level = the end of the louds vector) holds EXACTLY `wide` labels: the region where
+// the zero run behind the last set louds bit reaches or crosses the final 64-bit word(s) of the vector
+// (`DistanceToNextSetBit`'s loop to the last word and its unused-tail correction; `total % 64 == 0` is the
+// boundary where nothing may be subtracted). Shape: root with m labels; the greatest root label carries the
+// wide node (wide leaves, optionally one of them the terminator); the other root labels are leaves or carry
+// nodes of 2..9 labels so that the sizes add up. ok=false when the sizes cannot be met (wide > 256, ...).
+func genKeysWideLast(r *rand.Rand, total, wide int) (keys [][]byte, ok bool) {
+	if wide < 2 || wide > 256 || total < wide {
+		return nil, false
+	}
+	pre := [][]byte{{}, []byte("host-"), {0xff}, {0x00, 'a'}}[r.Intn(4)]
+	set := map[string]bool{}
+	add := func(parts ...[]byte) {
+		k := clone(pre)
+		for _, p := range parts {
+			k = append(k, p...)
+		}
+		set[string(k)] = true
+	}
+	tail := func() []byte { // leaf suffix (does not add labels)
+		if r.Intn(3) == 0 {
+			return randKey(r, smallAlpha, 3)
+		}
+		return nil
+	}
+	wideNode := func(first []byte) {
+		n := wide
+		if r.Intn(3) == 0 && len(first) > 0 { // the key that ends here: terminator label
+			add(first)
+			n--
+		}
+		perm := r.Perm(256)[:n]
+		if n >= 250 || r.Intn(2) == 0 { // keep the greatest labels in (0xff as a real label)
+			perm = perm[:0]
+			for b := 256 - n; b < 256; b++ {
+				perm = append(perm, b)
+			}
+		}
+		for _, b := range perm {
+			add(first, []byte{byte(b)}, tail())
+		}
+	}
+	rest := total - wide
+	if rest == 0 { // a single node: the root itself is the wide last node
+		wideNode(nil)
+	} else {
+		// root labels: m-1 ordinary ones (< L) and L; children of ordinary labels use up rest - m labels
+		if rest < 2 { // a root with the single label L would be compressed away
+			return nil, false
+		}
+		m := 2 + r.Intn(39)
+		if m > rest {
+			m = rest
+		}
+		if rest-m == 1 { // a child node needs >= 2 labels
+			m++
+		}
+		if m > 200 || m > rest {
+			return nil, false
+		}
+		for rest-m > 9*(m-1) { // not enough ordinary labels to hang the children on
+			m++
+			if m > 200 {
+				return nil, false
+			}
+		}
+		if rest-m == 1 {
+			return nil, false
+		}
+		labels := r.Perm(250)[:m]
+		sort.Ints(labels)
+		L := byte(labels[m-1] + 5)
+		// sizes of the nodes under the ordinary labels: 0 (a leaf) or 2..9, adding up to rest-m
+		sizes := make([]int, m-1)
+		left := rest - m
+		for guard := 0; left > 0 && guard < 100000; guard++ {
+			i := r.Intn(m - 1)
+			switch {
+			case sizes[i] == 0 && left >= 2:
+				sizes[i], left = 2, left-2
+			case sizes[i] >= 2 && sizes[i] < 9:
+				sizes[i], left = sizes[i]+1, left-1
+			}
+		}
+		if left != 0 {
+			return nil, false
+		}
+		for i := 0; i < m-1; i++ {
+			c := []byte{byte(labels[i])}
+			if sizes[i] == 0 {
+				add(c, tail())
+				continue
+			}
+			for _, b := range r.Perm(256)[:sizes[i]] {
+				add(c, []byte{byte(b)}, tail())
+			}
+		}
+		wideNode([]byte{L})
+	}
+	for k := range set {
+		keys = append(keys, []byte(k))
+	}
+	sort.Slice(keys, func(i, j int) bool { return bytes.Compare(keys[i], keys[j]) < 0 })
+	// confirm on the real builder: label count and width of the last node
+	b := trie.NewBuilder()
+	b.Build(keys, make([]uint32, len(keys)))
+	d := trie.VerifDump(b.Trie())
+	lastSet := 0
+	for i, x := range d.Louds {
+		if x {
+			lastSet = i
+		}
+	}
+	return keys, len(d.Labels) == total && len(d.Louds)-lastSet == wide
+}
+
 // genProbes: present keys, proper prefixes, extensions, neighbours, random strings, fixed edge keys.
 func genProbes(r *rand.Rand, keys [][]byte, n int) [][]byte {
 	seen := map[string]bool{}
@@ -537,6 +655,41 @@ func (s *subject) get(k []byte) {
 		s.c.Branch("get-present")
 	} else {
 		s.c.Branch("get-absent")
+	}
+}
+
+// getReusedBuffer: the probes once more, ordered by length, all through ONE scratch buffer that is
+// overwritten after every call (Get must depend on the probe's bytes only).
+func (s *subject) getReusedBuffer(probes [][]byte) {
+	sess := append([][]byte{}, probes...)
+	sort.SliceStable(sess, func(i, j int) bool { return len(sess[i]) < len(sess[j]) })
+	maxLen := 0
+	for _, k := range sess {
+		if len(k) > maxLen {
+			maxLen = len(k)
+		}
+	}
+	scratch := make([]byte, maxLen+1)
+	for _, k := range sess {
+		copy(scratch, k)
+		probe := scratch[:len(k)]
+		var v uint32
+		var ok bool
+		s.c.Guard("get "+hx(k), func() string {
+			v, ok = s.t.Get(probe)
+			return showOpt(v, ok)
+		})
+		for i := range scratch {
+			scratch[i] ^= 0x5a
+		}
+		ev, eok := s.m.get(k)
+		if ok != eok || (ok && v != ev) {
+			if len(s.m.keys) == 1 && bytes.Equal(s.m.keys[0], []byte{0xff}) && len(k) == 0 && ok {
+				s.fail(keyGetFF, "keys=1 Get(-) = %s", showOpt(v, ok))
+				continue
+			}
+			s.fail("get-mismatch", "keys=%d Get(%s) through a reused probe buffer = %s, sorted map says %s", len(s.m.keys), hx(k), showOpt(v, ok), showOpt(ev, eok))
+		}
 	}
 }
 
@@ -854,6 +1007,7 @@ func (s *subject) queries(r *rand.Rand, probes [][]byte) {
 			s.lget(k)
 		}
 	}
+	s.getReusedBuffer(probes)
 	s.iterAll("iter")
 	if s.full {
 		s.iterAll("liter")
@@ -1015,9 +1169,93 @@ func trieCaseOn(c *core.Ctx, r *rand.Rand, b trie.Builder, keys [][]byte, vals [
 	s2.pooled(r, buf.Bytes(), t2, probes, s2.full)
 }
 
+// wideLastCombos: (total labels, labels of the last node). Label totals that are exact multiples of 64 with
+// a last node of 64 (starts on the word boundary), 65.. (starts before the final word), up to 256 (spans
+// four words), single-node tries (the root is the last node: the 64 / 128 / 192 / 256 one-byte keys), and
+// the totals one below / above the word boundary.
+var wideLastCombos = [][2]int{
+	{256, 256}, {128, 128}, {128, 65}, {192, 129}, {64, 64}, {192, 192}, {128, 100}, {128, 126}, {192, 65},
+	{192, 128}, {256, 65}, {256, 191}, {256, 192}, {256, 193}, {320, 256}, {320, 130}, {384, 70}, {448, 256},
+	{512, 66}, {512, 200}, {576, 129}, {640, 256}, {127, 65}, {129, 66}, {191, 128}, {193, 128}, {255, 255},
+	{257, 255}, {128, 64}, {192, 64}, {256, 128},
+}
+
+// wideLastNodeCase: a fixed, boundary-directed family (by case index, not by chance): the trie's label
+// count is exactly 64*k (or 64*k +- 1) and the last node holds >= 64 labels, so that nodeSize of the last
+// node runs DistanceToNextSetBit to the end of the vector across the final word(s). Probes are the keys
+// under the greatest labels of that node (present), their neighbours and extensions (absent).
+func wideLastNodeCase(c *core.Ctx, r *rand.Rand, idx int) {
+	var total, wide int
+	if idx < len(wideLastCombos) {
+		total, wide = wideLastCombos[idx][0], wideLastCombos[idx][1]
+	} else {
+		k := 1 + r.Intn(12)
+		if c.Tier == "thorough" && r.Intn(3) == 0 {
+			k = 1 + r.Intn(60)
+		}
+		total = 64*k + []int{0, 0, 0, -1, 1}[r.Intn(5)]
+		wide = []int{64, 65, 66, 100, 127, 128, 129, 191, 192, 193, 255, 256, 2 + r.Intn(255)}[r.Intn(13)]
+		if wide > total {
+			wide = total
+		}
+	}
+	var keys [][]byte
+	ok := false
+	for try := 0; try < 8 && !ok; try++ {
+		keys, ok = genKeysWideLast(r, total, wide)
+	}
+	if !ok || len(keys) == 0 {
+		c.Branch(fmt.Sprintf("keys-wide-last-missed-%d-%d", total, wide))
+		if len(keys) == 0 {
+			keys, _ = genKeys(r, c.Tier, false)
+		}
+	} else {
+		switch {
+		case total%64 == 0 && wide > 64:
+			c.Branch("keys-wide-last-total-64k-spans-final-word")
+		case total%64 == 0:
+			c.Branch("keys-wide-last-total-64k-starts-on-word")
+		default:
+			c.Branch("keys-wide-last-total-off-by-one")
+		}
+	}
+	vals := genVals(r, len(keys))
+	n := len(keys)
+	var probes [][]byte
+	addP := func(k []byte) { probes = append(probes, clone(k)) }
+	for _, back := range []int{1, 2, 63, 64, 65, 66, wide - 1, wide, wide + 1} {
+		if back >= 1 && back <= n {
+			k := keys[n-back]
+			addP(k)
+			addP(append(clone(k), 0x00))
+			if len(k) > 0 {
+				x := clone(k)
+				x[len(x)-1]++
+				addP(x)
+				addP(k[:len(k)-1])
+			}
+		}
+	}
+	addP([]byte{0xff, 0xff, 0xff})
+	seen := map[string]bool{}
+	uniq := probes[:0]
+	for _, p := range append(probes, genProbes(r, keys, 8)...) {
+		if !seen[string(p)] {
+			seen[string(p)] = true
+			uniq = append(uniq, p)
+		}
+	}
+	trieCase(c, r, keys, vals, uniq, len(keys) > 400)
+}
+
 // ---------------------------------------------------------------- bit vector cases
 
-func bitvecCase(c *core.Ctx, r *rand.Rand) {
+// bitvecCase: idx%3 == 0 is the boundary-directed variant (deterministic by case index): the vector's
+// length is 64*k (or 64*k +- 1) and it ends in a run of zeros of length 1 / 63..66 / 127..129 / ..., i.e. the
+// run behind the last set bit ends inside, exactly fills, or crosses the final word(s) — the loop and the
+// unused-tail correction at the end of DistanceToNextSetBit; distances are asked at the last set bit,
+// inside the run and around the start of the final word.
+func bitvecCase(c *core.Ctx, r *rand.Rand, idx int) {
 	nb := 1 + r.Intn(4)
 	blocks := make([][]bool, nb)
 	var all []bool
@@ -1043,6 +1281,47 @@ func bitvecCase(c *core.Ctx, r *rand.Rand) {
 			parts = append(parts, showBits(blk))
 		}
 	}
+	directed := []int{}
+	if idx%3 == 0 {
+		j := idx / 3
+		ks := []int{2, 1, 3, 4, 8, 9, 5, 16}
+		ts := []int{66, 65, 64, 1, 127, 128, 129, 63, 100, 2, 200, 70}
+		n := 64*ks[j%len(ks)] + []int{0, 0, 0, 0, 1, -1}[(j/len(ks))%6]
+		t := ts[(j+j/len(ks))%len(ts)]
+		if t > n-1 {
+			t = n - 1
+		}
+		all = make([]bool, n)
+		for q := 0; q < n-t-1; q++ {
+			all[q] = r.Float64() < density
+		}
+		all[0], all[n-t-1] = true, true
+		// cut into 1..3 level blocks at random places
+		blocks, parts = nil, nil
+		cuts := []int{0}
+		for q := r.Intn(3); q > 0; q-- {
+			cuts = append(cuts, r.Intn(n+1))
+		}
+		cuts = append(cuts, n)
+		sort.Ints(cuts)
+		for q := 0; q+1 < len(cuts); q++ {
+			blk := append([]bool{}, all[cuts[q]:cuts[q+1]]...)
+			if len(blk) == 0 {
+				continue
+			}
+			blocks = append(blocks, blk)
+			parts = append(parts, showBits(blk))
+		}
+		directed = []int{n - t - 1, n - t, n - 65, n - 64, n - 66, n - 2}
+		switch {
+		case n%64 == 0 && t > 64:
+			c.Branch("bitvec-tail-64k-run-crosses-final-word")
+		case n%64 == 0:
+			c.Branch("bitvec-tail-64k-run-inside-final-word")
+		default:
+			c.Branch("bitvec-tail-off-by-one-length")
+		}
+	}
 	var v *trie.VerifBitVec
 	ones := 0
 	for _, b := range all {
@@ -1066,6 +1345,52 @@ func bitvecCase(c *core.Ctx, r *rand.Rand) {
 	c.Op("bvranklut", showU32(v.RankLut()))
 	c.Op("bvsellut", showU32(v.SelectLut()))
 	n := len(all)
+	// select inside one word: the words of this vector, and directed ones (one bit per byte, full bytes,
+	// a single top / bottom bit, bits around the byte boundaries), ranks 1, popcount, around multiples of 8
+	{
+		var ws []uint64
+		for j := 0; j*64 < n && j < 4; j++ {
+			var w uint64
+			for q := 0; q < 64 && j*64+q < n; q++ {
+				if all[j*64+q] {
+					w |= 1 << uint(q)
+				}
+			}
+			ws = append(ws, w)
+		}
+		ws = append(ws, []uint64{1, 1 << 63, 0x8000000000000001, 0x0101010101010101, 0x8080808080808080,
+			0xffffffffffffffff, 0xff00ff00ff00ff00, 0x00000000000180, r.Uint64(), r.Uint64() & r.Uint64(), r.Uint64() | r.Uint64()}...)
+		for _, w := range ws {
+			pc := mbits.OnesCount64(w)
+			if pc == 0 {
+				continue
+			}
+			for _, k := range []int{1, pc, 1 + r.Intn(pc), (pc / 8) * 8, (pc/8)*8 + 1} {
+				if k < 1 || k > pc {
+					continue
+				}
+				var got int64
+				c.Guard(fmt.Sprintf("sel64 %016x %d", w, k), func() string {
+					got = trie.VerifSelect64(w, int64(k))
+					return strconv.Itoa(int(got))
+				})
+				bw := trie.VerifSelect64Broadword(w, int64(k))
+				want, cnt := -1, 0
+				for q := 0; q < 64; q++ {
+					if w>>uint(q)&1 == 1 {
+						cnt++
+						if cnt == k {
+							want = q
+							break
+						}
+					}
+				}
+				if int(got) != want || int(bw) != want {
+					c.Fail("select64-mismatch", fmt.Sprintf("select64(%016x,%d)=%d broadword=%d, the %d-th set bit is at %d", w, k, got, bw, k, want))
+				}
+			}
+		}
+	}
 	for i := 0; i < 14; i++ {
 		pos := r.Intn(n)
 		switch i {
@@ -1079,6 +1404,9 @@ func bitvecCase(c *core.Ctx, r *rand.Rand) {
 			if n > 512 {
 				pos = 511 + r.Intn(2)
 			}
+		}
+		if i >= 4 && i-4 < len(directed) && directed[i-4] >= 0 && directed[i-4] < n {
+			pos = directed[i-4]
 		}
 		var got uint32
 		c.Guard(fmt.Sprintf("rank %d", pos), func() string {
@@ -1342,6 +1670,50 @@ func (s *bucketSubject) queries(r *rand.Rand, probes [][]byte) {
 			c.Fail(keyGetFF, fmt.Sprintf("[%s] GetValue(-)=%s: a trie of the bucket holds the single key ff", s.tag, showOpt(v, ok)))
 		} else if ok != eok || (ok && v != ev) {
 			c.Fail("bucket-get-mismatch", fmt.Sprintf("[%s] GetValue(%s)=%s, union says %s", s.tag, hx(k), showOpt(v, ok), showOpt(ev, eok)))
+		}
+	}
+	// the same lookups through ONE reused probe buffer (the write path resolves tag values out of a
+	// recycled block): a lookup's answer must depend on the probe's BYTES only, not on the memory they sit
+	// in nor on earlier lookups. Equal-length keys follow each other, present after present, absent after
+	// present; the buffer is overwritten after every call.
+	{
+		sess := make([][]byte, 0, len(probes)+24)
+		sess = append(sess, probes...)
+		for i := 0; i < 24 && len(all) > 0; i++ {
+			sess = append(sess, all[r.Intn(len(all))].k)
+		}
+		r.Shuffle(len(sess), func(i, j int) { sess[i], sess[j] = sess[j], sess[i] })
+		sort.SliceStable(sess, func(i, j int) bool { return len(sess[i]) < len(sess[j]) })
+		maxLen := 0
+		for _, k := range sess {
+			if len(k) > maxLen {
+				maxLen = len(k)
+			}
+		}
+		scratch := make([]byte, maxLen+1)
+		for _, k := range sess {
+			copy(scratch, k)
+			probe := scratch[:len(k)]
+			var v uint32
+			var ok bool
+			c.Guard("bget "+hx(k), func() string {
+				v, ok = s.b.GetValue(probe)
+				return showOpt(v, ok)
+			})
+			for i := range scratch { // the caller recycles the memory
+				scratch[i] ^= 0x5a
+			}
+			ev, eok := s.all[string(k)]
+			if ffv, has := s.all["\xff"]; len(k) == 0 && !eok && ok && has && v == ffv && s.singleFF {
+				c.Fail(keyGetFF, fmt.Sprintf("[%s] GetValue(-)=%s: a trie of the bucket holds the single key ff", s.tag, showOpt(v, ok)))
+			} else if ok != eok || (ok && v != ev) {
+				c.Fail("bucket-get-mismatch", fmt.Sprintf("[%s] GetValue(%s) through a reused probe buffer =%s, union says %s", s.tag, hx(k), showOpt(v, ok), showOpt(ev, eok)))
+			}
+			if eok {
+				c.Branch("bucket-get-reused-buffer-present")
+			} else {
+				c.Branch("bucket-get-reused-buffer-absent")
+			}
 		}
 	}
 	// all values
@@ -2076,6 +2448,29 @@ func witnessCase(c *core.Ctx, i int) {
 		k := trie.VerifConsts()
 		c.Op("consts", fmt.Sprintf("labelTerminator=%d wordSize=%d rankSparseBlockSize=%d selectSampleInterval=%d",
 			k["labelTerminator"], k["wordSize"], k["rankSparseBlockSize"], k["selectSampleInterval"]))
+		// bits.go: the select-in-byte table as filled by init()
+		lut := trie.VerifSelectInByteLut()
+		flat := make([]uint32, 0, 2048)
+		for b := 0; b < 256; b++ {
+			for j := 0; j < 8; j++ {
+				flat = append(flat, uint32(lut[b][j]))
+				// the j-th (zero-based) set bit of b, or 8
+				want, cnt := 8, 0
+				for q := 0; q < 8; q++ {
+					if b>>uint(q)&1 == 1 {
+						if cnt == j {
+							want = q
+							break
+						}
+						cnt++
+					}
+				}
+				if int(lut[b][j]) != want {
+					c.Fail("select-byte-table", fmt.Sprintf("selectInByteLut[%d][%d]=%d want %d", b, j, lut[b][j], want))
+				}
+			}
+		}
+		c.Op("sellut", showU32(flat))
 		c.NonTrivial()
 	case 1: // Build of the key set {""}: index out of range in buildNodes
 		keys, vals := [][]byte{{}}, []uint32{7}
@@ -2164,7 +2559,7 @@ func (area) Run(c *core.Ctx) error {
 		r := c.Rng(i)
 		switch {
 		case i%10 == 7:
-			bitvecCase(c, r)
+			bitvecCase(c, r, i/10)
 		case i%40 == 39:
 			reusedBuilderCase(c, r, c.Tier)
 		case i%30 == 8:
@@ -2203,6 +2598,8 @@ func (area) Run(c *core.Ctx) error {
 			}
 			vals := genVals(r, len(keys))
 			trieCase(c, r, keys, vals, genProbes(r, keys, 16), true)
+		case i%40 == 34:
+			wideLastNodeCase(c, r, i/40)
 		case i%10 == 6 && i%20 == 6:
 			kvstoreCase(c, r)
 		case c.Tier == "thorough" && i%1000 == 501:
